@@ -29,6 +29,7 @@ def ref_dataset_specs(draw, max_levels=3, max_leaves=7, min_levels=1, min_leaves
         'dtype': draw(st.sampled_from(['float32', 'float64', 'int32'])),
         'enc': draw(st.sampled_from(['csr', 'csc', 'dense'])),
         'shuffle': draw(st.booleans()),
+        'family': draw(st.sampled_from(['generic', 'generic', 'nested'])),
     }
 
 
@@ -39,9 +40,16 @@ def expand_ref_dataset(rs):
     ng = rs['n_genes']
     leaves = sorted(t.leaves())
     prof = {}
-    for lf in leaves:
+    prev = None
+    for k, lf in enumerate(leaves):
         p = (rng.random(ng) < 0.35) * rng.integers(50, 400, ng)
+        if rs.get('family') == 'nested' and prev is not None and k % 2 == 1:
+            # every second leaf expresses everything its predecessor does plus some more genes:
+            # that pair has markers in one direction only
+            extra = (rng.random(ng) < 0.3) * rng.integers(50, 400, ng)
+            p = np.where(prof[prev] > 0, prof[prev], extra)
         prof[lf] = p
+        prev = lf
     rows, X = [], []
     for lf in leaves:
         path = t.path_of_leaf(lf)
